@@ -45,6 +45,16 @@ class LimitGatedScheduler {
           unlimited_(res == std::numeric_limits<ssize_t>::max()),
           serial_(res == 1) {}
 
+    // An upstream task that was already running when wait() gave up under a pending exception can
+    // still enqueue an item afterwards; nobody dispatches it any more. OnceFunction has no destructor,
+    // so whatever is left in the queue is released here (the pipeline's tasks have all finished by now).
+    ~Impl() {
+      OnceFunction discard;
+      while (queue_.try_dequeue(discard)) {
+        discard.cleanupNotRun();
+      }
+    }
+
     template <typename F>
     void schedule(F&& fPipe) {
       outstanding_.fetch_add(1, std::memory_order_acq_rel);
